@@ -31,6 +31,7 @@ SPEC = os.path.join(VERIF, 'spec', 'smp')
 KNOWN_LOCAL = os.path.join(VERIF, 'checks', 'C55.known.json')
 COPIED = ['ipc/StoreMap.h', 'ipc/StoreMap.cc', 'ipc/ReadWriteLock.h', 'ipc/ReadWriteLock.cc']
 KEY_OPS = ('ow', 'or', 'fk', 'ou')
+ALL_KEYS = list(range(1, 10))       # Key constant of the trace configs (only TypeOK depends on it)
 RELAX = [('lost-deletion-during-update', 'AllowUpdRace'), ('stale-reader-loses-suffix', 'AllowStaleSuffixLoss')]
 
 
@@ -112,7 +113,10 @@ def init_of(cfg):
             raise MachineryError('pre entries collide in "%s"' % cfg)
         init[a] = {'key': k, 'st': 'appending' if app else 'complete', 'ch': list(range(nxt, nxt + length))}
         nxt += length
-    return n, sorted(set(keys) | {k for k, _, _ in pre}), init
+    ks = set(keys) | {k for k, _, _ in pre}
+    if not ks <= set(ALL_KEYS):
+        raise MachineryError('key outside 1..9 in "%s"' % cfg)
+    return n, ALL_KEYS, init
 
 
 def parse_result(kind, res):
@@ -207,7 +211,7 @@ def trace_cfg(ctx, n, keys, relax=()):
     if 'Anchor = ' + rng not in txt2:
         raise MachineryError('cannot instantiate Trace_StoreIndex.cfg')
     d = vlib.mkdirs(os.path.join(ctx.work, 'cfg'))
-    path = os.path.join(d, 'Trace_StoreIndex_n%d_k%s%s.cfg' % (n, '-'.join(str(k) for k in keys), ''.join('_' + s for s in relax)))
+    path = os.path.join(d, 'Trace_StoreIndex_n%d%s.cfg' % (n, ''.join('_' + s for s in relax)))
     with open(path, 'w') as f:
         f.write(txt2)
     return path
@@ -251,6 +255,82 @@ def validate(ctx, groups, chunk=600, timeout=1500, count=True):
 
 
 # ---------------------------------------------------------------------------------------------
+# T1: edges of the I-layer replayed on the real code (lock operations as single steps)
+# ---------------------------------------------------------------------------------------------
+SHARED = ('fileNos', 'anchors', 'slices', 'count', 'victim', 'pool')
+
+
+def _items(f):
+    """ToJson prints a function over 0..n-1 as an object (keys "0", "1", ...) or, over 1..n, as an array"""
+    if isinstance(f, dict):
+        return [f[k] for k in sorted(f, key=int)]
+    return list(f)
+
+
+def reshape(st):
+    """I-layer state (ToJson of StoreMapImpl!St) -> the shape of the driver's project()"""
+    d = dict(st)
+    d['anchors'] = [{'key': a['key'], 'wtbf': a['wtbf'], 'halted': a['halted'], 'start': a['start'], 'splice': a['splice'],
+                     'readers': a['rdrs'], 'writing': a['wr'], 'appending': a['app'], 'updating': a['updg'],
+                     'readLevel': a['rdrs'], 'writeLevel': 1 if a['wr'] else 0} for a in _items(st['anchors'])]
+    d['slices'] = [[s['size'], s['next']] for s in _items(st['slices'])]
+    d['fileNos'] = _items(st['fileNos'])
+    d['pool'] = sorted(st['pool'])
+    for k in ('pc', 'L', 'H', 'ret'):
+        d[k] = _items(st[k])
+    return d
+
+
+def impl_mover(s, t):
+    ch = [p for p in range(len(s['pc'])) if s['pc'][p] != t['pc'][p] or s['L'][p] != t['L'][p] or s['H'][p] != t['H'][p]]
+    if len(ch) != 1:
+        raise MachineryError('ambiguous mover %r -> %r' % (s['pc'], t['pc']))
+    p = ch[0]
+    if s['pc'][p] == 'idle':
+        loc = t['L'][p]
+        return ('B', p, loc['op'] + (':%d' % loc['k'] if loc['k'] else ''))
+    return ('S', p)
+
+
+def expected_ret(r):
+    """StoreMapImpl!ret[p] -> what the driver prints as the last completed op of the fiber ("op:result")"""
+    op = r['op'] + (':%d' % r['k'] if r['k'] else '')
+    kind = r['op']
+    if kind in ('ow', 'or'):
+        res = str(r['a']) if r['a'] >= 0 else 'F'
+    elif kind == 'ou':
+        res = '%d.%d.%d' % (r['a'], r['b'], r['first']) if r['a'] >= 0 else 'F'
+    elif kind in ('ws', 'us'):
+        res = str(r['s'])
+    elif kind == 'rs':
+        res = 'L' + '.'.join(str(x) for x in r['seen'])
+    elif kind in ('fe', 'p'):
+        res = r['ok']
+    else:
+        res = 'T'
+    if r['freed']:
+        res += '/f=' + '.'.join(str(x) for x in r['freed'])
+    return op + ':' + res
+
+
+def impl_ret_of(s, t, got):
+    for p in range(len(s['pc'])):
+        if s['pc'][p] != 'idle' and t['pc'][p] == 'idle' and got['ret'][p] != expected_ret(t['ret'][p]):
+            return False
+    return True
+
+
+def edge_replay(ctx, exe, cfgname, drv_cfg, max_edges):
+    r = vlib.tlc(ctx, os.path.join(SPEC, 'MC_StoreMapImpl.tla'), os.path.join(SPEC, cfgname), workers=1, record=False, heap='4g')
+    if not r.clean:
+        raise MachineryError('TLC edge dump failed for %s:\n%s' % (cfgname, r.tail(30)))
+    edges = [{'s': reshape(e['s']), 't': reshape(e['t'])} for e in scheck.parse_edges(r.out)]
+    n, mism = scheck.replay_edges(ctx, exe, edges, 2, impl_mover, SHARED, cfg=drv_cfg, ret_of=impl_ret_of, max_edges=max_edges)
+    ctx.log('edge replay %s on the real StoreMap "%s": %d edges replayed, %d mismatches' % (cfgname, drv_cfg, n, mism))
+    return n, mism
+
+
+# ---------------------------------------------------------------------------------------------
 # verdicts
 # ---------------------------------------------------------------------------------------------
 def report(ctx, what, witness):
@@ -283,6 +363,8 @@ def scenario_runs(T, seed):
     runs = []
 
     def X(nf, scripts, cfg, variant='rl', **kw):
+        # quick tier: all schedules are explored under the driver monitor, the first 300 distinct histories of a run go to TLC
+        kw.setdefault('hcap', 100000 if T else 300)
         runs.append((variant, xcmd(nf, scripts, cfg, **kw), cfg))
     c1 = 'n=3 keys=1'
     c14 = 'n=3 keys=1,4'            # 4 % 3 = 1: the two keys share a name
@@ -332,9 +414,6 @@ def scenario_runs(T, seed):
         runs.append(('al', 'X 2 3 3000000 100000 ' + c, c))
         c = 'n=3 keys=1,4 maxw=1 pre=1:1 kinds=ow,ws,cw,or,rs,cr,cf,fk,fe'
         runs.append(('al', 'X 2 3 3000000 100000 ' + c, c))
-    else:
-        c = 'n=3 keys=1 maxw=1 pre=1:1 kinds=or,rs,cr,cf,fk,fe,p'
-        runs.append(('al', 'X 3 2 3000000 100000 ' + c, c))
     # --- T2: random walks, 4 fibers, 4 keys, 8 slices ---
     nw = 3000 if T else 300
     wc = 'n=8 keys=1,2,3,9 maxw=3 pre=1:2,2:1'
@@ -408,28 +487,34 @@ def run(ctx):
     glist = []
     for (n, keys), (lines, origin) in sorted(groups.items()):
         if lines:
-            glist.append(('storeindex-n%d-k%s' % (n, '-'.join(map(str, keys))), trace_cfg(ctx, n, keys), lines, origin, n, keys))
-    rejected = validate(ctx, [(g[0], g[1], g[2]) for g in glist])
+            glist.append(('storeindex-n%d' % n, trace_cfg(ctx, n, keys), lines, origin, n, keys))
+    rejected = validate(ctx, [(g[0], g[1], g[2]) for g in glist], chunk=800 if not T else 1500)
+    # classification: which single weakening of the P-layer explains a rejection?  (none: a plain violation)
+    strict_rej = {}
+    cgroups = []
+    for label, cfg, lines, origin, n, keys in glist:
+        rej = sorted((i for i in rejected[label] if isinstance(i, int)), key=lambda i: len(lines[i]['ev']))
+        strict_rej[label] = rej
+        for kind, switch in RELAX:
+            if rej:
+                cgroups.append((label + '-' + switch, trace_cfg(ctx, n, keys, (switch,)), [lines[i] for i in rej]))
+    relaxed = validate(ctx, cgroups, count=False) if cgroups else {}
     total = 0
     nontrivial = 0
     for label, cfg, lines, origin, n, keys in glist:
-        rej = rejected[label]
-        ctx.log('TLC validated %d distinct histories (%s) against StoreIndex.tla; rejected: %d' % (len(lines), label, len(rej)))
+        rej = strict_rej[label]
+        ctx.log('TLC validated %d distinct histories (%s) against StoreIndex.tla; rejected: %d' % (len(lines), label, len(rejected[label])))
         total += len(lines)
         nontrivial += sum(1 for ln in lines if overlapping(ln))
-        bad = [i for i in rej if not isinstance(i, int)]
-        for b in bad[:1]:
+        for b in [i for i in rejected[label] if not isinstance(i, int)][:1]:
             report(ctx, 'history breaks an invariant of StoreIndex.tla (P-layer), %s' % label, {'kind': 'history', 'class': {'kind': b}})
-        rej = sorted((i for i in rej if isinstance(i, int)), key=lambda i: len(lines[i]['ev']))
         ctx.add('histories_rejected_strict', len(rej))
-        # classification: which single weakening of the P-layer explains the rejection?  (none: a plain violation)
-        rest = rej
+        rest = list(rej)
         for kind, switch in RELAX:
-            if not rest:
-                break
-            sub = [lines[i] for i in rest]
-            rj = validate(ctx, [(label + '-' + switch, trace_cfg(ctx, n, keys, (switch,)), sub)], count=False)[label + '-' + switch]
-            still = {rest[j] for j in rj if isinstance(j, int)}
+            rj = relaxed.get(label + '-' + switch, [])
+            if any(not isinstance(j, int) for j in rj):
+                continue                                     # the weakened layer broke an invariant: explains nothing
+            still = {rej[j] for j in rj}
             explained = [i for i in rest if i not in still]
             ctx.add('histories_explained_by_' + switch, len(explained))
             if explained:
